@@ -456,7 +456,10 @@ func runC12(e *env) error {
 	}
 	e.rep.Note("exhaustive tables: %d cases (all agree unless reported); random: %d", nExh, nRand)
 
-	return c12RealPath(e)
+	if err := c12RealPath(e); err != nil {
+		return err
+	}
+	return runConsumers(e)
 }
 
 func hasLoaderLine(sc *settingsCase) bool {
